@@ -33,6 +33,9 @@ def scan(cfg, log):
     sd_begin = {}           # scheduler -> instant of the beginning of its co_shutdown()
     begun = set()
     finished_how = {}
+    begin_at = {}           # scheduler -> instant at which its run began
+    done_at = {}            # job / nested run -> instant at which it finished (not cancelled)
+    ended_how = {}          # nested run -> kind of its end
     for e in log:
         k = e[0]
         if k == "tick":
@@ -77,6 +80,7 @@ def scan(cfg, log):
             x = e[1]
             if x == 0:
                 begun.add(0)
+                begin_at[0] = now
                 continue
             p = jobs[x]["parent"]
             started[x] = started.get(x, 0) + 1
@@ -94,6 +98,7 @@ def scan(cfg, log):
             executing.add(x)
             if k == "begin":
                 begun.add(x)
+                begin_at[x] = now
             w = jobs[p].get("window") or 0
             cnt = sum(1 for y in executing if jobs[y]["parent"] == p)
             if w and cnt > w:
@@ -103,6 +108,7 @@ def scan(cfg, log):
             executing.discard(e[1])
             done.add(e[1])
             finished_how[e[1]] = e[2]
+            done_at.setdefault(e[1], now)
         elif k in ("cend", "cabort"):
             executing.discard(e[1])
         elif k == "end":
@@ -111,6 +117,21 @@ def scan(cfg, log):
             left_main.setdefault(n, now)
             if e[2] != "cancelled":
                 done.add(n)
+                done_at.setdefault(n, now)
+            ended_how[n] = e[2]
+            if e[2] in ("false", "raise") and n in begin_at:
+                # C08, second sentence (and C04): a run whose non-forever jobs all finished strictly
+                # before its timeout, none of its critical jobs having failed, must end with True
+                mem = _members(cfg, n)
+                fin = [x for x in mem if not jobs[x]["forever"]]
+                crit_fail = any(jobs[x]["crit"] and (ended_how.get(x) == "raise" if jobs[x]["sched"]
+                                                     else finished_how.get(x) == "exc") for x in mem)
+                T = jobs[n].get("timeout")
+                lim = None if T is None else begin_at[n] + T
+                if fin and not crit_fail and all(x in done_at and (lim is None or done_at[x] < lim) for x in fin):
+                    bad("timeout_effect", what="scheduler %d began at %s with timeout %s; all its non-forever jobs "
+                        "finished strictly before %s and none of its critical jobs failed, yet its run ends with %s at %s"
+                        % (n, begin_at[n], T, lim, e[2], now), scheduler=n, at=now)
             if e[2] == "true":
                 und = [x for x in _members(cfg, n) if not jobs[x]["forever"] and x not in done]
                 if und:
